@@ -350,11 +350,37 @@ struct RunSpec {
     sweep: bool,
 }
 
-fn exec_index(prop: &str, plan: &[RunSpec], batch: u64, index: u64, agg: &mut Agg) {
+/// The case for one run index: generated, then (Miri mode) cut down to a small one.
+fn make_case(wl: Workload, subject: SubjectKind, seed: u64, max_ops: usize) -> (Config, Vec<Op>) {
+    let (mut cfg, mut trace) = gen::generate(wl, subject, seed);
+    if max_ops < usize::MAX {
+        trace.truncate(max_ops);
+        cfg.initial.truncate(6);
+        cfg.upstream.truncate(10);
+        cfg.up_released = cfg.up_released.min(cfg.upstream.len());
+        if cfg.subject.class() == Class::Join || (cfg.ctor == Ctor::Collect && cfg.subject.bounded()) {
+            cfg.cap = cfg.initial.len();
+        } else {
+            cfg.cap = cfg.cap.min(40);
+        }
+        // keep pushes of very large populations out of the interpreter
+        let mut pushes = 0;
+        trace.retain(|o| match o {
+            Op::Push { .. } => {
+                pushes += 1;
+                pushes <= 10
+            }
+            _ => true,
+        });
+    }
+    (cfg, trace)
+}
+
+fn exec_index(prop: &str, plan: &[RunSpec], batch: u64, index: u64, agg: &mut Agg, max_ops: usize) {
     let spec = &plan[(index % plan.len() as u64) as usize];
     let seed = rng::run_seed(batch, index);
     flags::F.with(|f| f.cur_run_seed.set(seed));
-    let (cfg, trace) = gen::generate(spec.wl, spec.subject, seed);
+    let (cfg, trace) = make_case(spec.wl, spec.subject, seed, max_ops);
     if spec.sweep {
         let n = trace.len().min(60);
         for k in 0..=n {
@@ -464,6 +490,9 @@ fn cmd_check(args: &[String]) -> i32 {
     let runs: u64 = arg_val(args, "--runs")
         .and_then(|s| s.parse().ok())
         .unwrap_or_else(|| plans::runs(&prop, &tier));
+    let first: u64 = arg_val(args, "--first").and_then(|s| s.parse().ok()).unwrap_or(0);
+    let max_ops: usize = arg_val(args, "--max-ops").and_then(|s| s.parse().ok()).unwrap_or(usize::MAX);
+    let no_shrink = args.iter().any(|a| a == "--no-shrink");
     let budget_s: f64 = arg_val(args, "--max-seconds").and_then(|s| s.parse().ok()).unwrap_or(if tier == "quick" { 40.0 } else { 1500.0 });
     println!("fbsim check property={} tier={} VERIF_SEED={} runs={} threads={} plan_entries={}", prop, tier, batch, runs, threads, plan.len());
     let known: KnownFile = std::fs::read_to_string(&known_path)
@@ -472,7 +501,7 @@ fn cmd_check(args: &[String]) -> i32 {
         .unwrap_or_default();
 
     let t0 = Instant::now();
-    let next = AtomicU64::new(0);
+    let next = AtomicU64::new(first);
     let total = Mutex::new(Agg::default());
     let done_runs = AtomicU64::new(0);
     std::thread::scope(|s| {
@@ -488,7 +517,7 @@ fn cmd_check(args: &[String]) -> i32 {
                     if i % 64 == 0 && t0.elapsed().as_secs_f64() > budget_s {
                         break;
                     }
-                    exec_index(&prop, &plan, batch, i, &mut agg);
+                    exec_index(&prop, &plan, batch, i, &mut agg, max_ops);
                     done_runs.fetch_add(1, Ordering::Relaxed);
                 }
                 total.lock().unwrap().merge(agg);
@@ -511,12 +540,16 @@ fn cmd_check(args: &[String]) -> i32 {
             k.status == "known" && (&k.property == p || k.property == prop) && &k.oracle == oracle && (k.subjects.is_empty() || k.subjects.iter().any(|s| s == "*" || s == subject))
         });
         let sk = parse_subject(subject).unwrap();
-        let (cfg, base) = gen::generate(*wl, sk, *seed);
+        let (cfg, base) = make_case(*wl, sk, *seed, max_ops);
         let trace = match sweep_k {
             Some(k) => sweep_trace(&base, *k),
             None => base,
         };
-        let sh = shrink::shrink(&cfg, &trace, p, oracle, if tier == "quick" { 1500 } else { 6000 });
+        let sh = if no_shrink {
+            shrink::Shrunk { cfg: cfg.clone(), trace: trace.clone(), runs: 0 }
+        } else {
+            shrink::shrink(&cfg, &trace, p, oracle, if tier == "quick" { 1500 } else { 6000 })
+        };
         let r = run::run(&sh.cfg, &sh.trace);
         let v = r.violations.iter().find(|v| &v.property == p && &v.oracle == oracle);
         let detail2 = v.map(|v| v.detail.clone()).unwrap_or(detail.clone());
